@@ -21,7 +21,8 @@ def run(ctx):
         backup.model_check(ctx, 3, [2, 1, 0], 1)
         backup.model_check(ctx, 2, [2, 2], 2)
     # items=400: shard files larger than the manifests, so that a size limit can hit the data only
-    configs = [dict(conc=2, blk=16), dict(conc=1, kv=True, mm=True, blk=64, items=400), dict(conc=2, delta=True, gcduring=True, blk=16, writers=vlib.NCPU + 2)]   # more writers than CPUs: the delta manifests are the largest manifests
+    # items=400 with the default block size: every shard is written by the final flush in Close only, and is larger than the manifests
+    configs = [dict(conc=2, blk=16), dict(conc=1, kv=True, mm=True, blk=64, items=400), dict(conc=2, kv=True, blk=0, items=400), dict(conc=2, delta=True, gcduring=True, blk=16, writers=vlib.NCPU + 2)]   # more writers than CPUs: the delta manifests are the largest manifests
     if T:
         configs += [dict(conc=8, blk=0), dict(conc=2, delta=True, mm=True, blk=32), dict(conc=1, older=True, blk=16),
                     dict(conc=3, delta=True, gcduring=True, kv=True, blk=8)]
